@@ -101,7 +101,7 @@ def rule_hc12(prog):
                     'returns:%r' % (v,),
                     'the node constructor returns %r without allocating, '
                     'but that is neither the common child nor the lookup '
-                    'result' % (v,)))
+                    'result' % (v,)), witness=v)
             continue
         nalloc += 1
         red = (App('cmp', Const('is'), low, high), False) in p.pc or \
@@ -268,7 +268,7 @@ def rule_hc3(prog, lookup, reg_fields):
             r.fail(Finding(PROP, 'R-HC-3', lookup.where(), lookup.short(),
                            'returns:%r' % (v,),
                            'the lookup returns %r, which is not an element '
-                           'of a registry it scanned' % (v,)))
+                           'of a registry it scanned' % (v,)), witness=v)
             continue
         reg = v.meta[1]
         conds = ex[-1][1]
@@ -451,7 +451,7 @@ def rule_hc45(prog):
                 'registry:%s:%r' % (fld, v),
                 'the parent registry %s is %r, not a WeakSet: dropped '
                 'diagrams are kept alive (or the registry cannot hold '
-                'nodes)' % (fld, v)))
+                'nodes)' % (fld, v)), witness=v)
     # identity eq / hash
     for ci in (nt, tt):
         for m, want in (('__eq__', 'is'), ('__hash__', 'id')):
@@ -476,7 +476,7 @@ def rule_hc45(prog):
                     'identity:%s:%s' % (m, [repr(v) for v in vals]),
                     '%s.%s is %s, not object identity: nodes in the weak '
                     'registries and caches are conflated or lost' % (
-                        ci.short(), m, [repr(v) for v in vals])))
+                        ci.short(), m, [repr(v) for v in vals])), witness=v)
     # OBDD.__eq__
     oc = prog.cls('BDD.OBDD.OBDD')
     f = prog.method(oc, '__eq__')
